@@ -253,9 +253,11 @@ impl Check for C16 {
         for k in 0..n_runs {
             let kind = match setup.entry {
                 Entry::Build => "build",
-                Entry::Cli => match pr.below(6) {
+                Entry::Cli => match pr.below(7) {
                     0 if setup.conf != ConfSrc::Standalone => "init",
                     1 if setup.conf != ConfSrc::Standalone => "init_custom",
+                    // bare `init`: every path defaulted (./src-tauri, ./src/generated, tauri.conf.json)
+                    2 if setup.conf != ConfSrc::Standalone && setup.cwd == Cwd::App => "init_default",
                     _ => "generate",
                 },
             };
@@ -311,6 +313,10 @@ impl Check for C16 {
             let mut init_target: Option<String> = None;
             let call = match run.kind.as_str() {
                 "build" => Call::Build,
+                "init_default" => {
+                    init_target = Some(format!("{}/tauri.conf.json", canon_dir(&w.src_tauri())));
+                    Call::Cli(vec!["cargo".into(), "tauri-typegen".into(), "init".into()])
+                }
                 "init" | "init_custom" => {
                     let mut a: Vec<String> = vec!["cargo".into(), "tauri-typegen".into(), "init".into()];
                     a.push("-p".into());
@@ -331,10 +337,31 @@ impl Check for C16 {
                 }
                 _ => Call::Cli(w.argv(&c.setup, &c.cfg, run.force, false)),
             };
+            // The *configured* output directory of this run, read the way the tool reads it:
+            // an earlier `init` may have re-pointed plugins.typegen.outputPath.
+            let out_this_run: std::path::PathBuf = match run.kind.as_str() {
+                "init_default" => w.root.join("app/src/generated"),
+                "init" | "init_custom" => out.clone(),
+                _ if c.setup.conf == ConfSrc::Tauri => {
+                    let conf_path = w.src_tauri().join("tauri.conf.json");
+                    let v: Option<Value> = std::fs::read_to_string(&conf_path).ok().and_then(|t| serde_json::from_str(&t).ok());
+                    let p = v
+                        .as_ref()
+                        .and_then(|v| v["plugins"]["typegen"]["outputPath"].as_str())
+                        .unwrap_or("./src/generated")
+                        .to_string();
+                    if p.starts_with('/') {
+                        std::path::PathBuf::from(p)
+                    } else {
+                        lexical(&cwd.join(p))
+                    }
+                }
+                _ => out.clone(),
+            };
             let ro = env.run(&w, &cwd, run.proc.clone(), call);
             co.count("processes", 1);
             co.count("runs_monitored", 1);
-            let out_real = canon_dir(&out);
+            let out_real = canon_dir(&out_this_run);
             let before_abs = |p: &str| -> Option<&Node> { p.strip_prefix(&format!("{}/", root)).and_then(|rel| ro.before.get(rel)) };
             let after_abs = |p: &str| -> Option<&Node> { p.strip_prefix(&format!("{}/", root)).and_then(|rel| ro.after.get(rel)) };
             let classify = |path: &str, op: Op| -> Option<(String, String)> {
@@ -410,6 +437,7 @@ impl Check for C16 {
                 }
             }
             co.reach("placement_x_entry_x_kind", format!("{}/{}/{}", c.placement, c.setup.label(), run.kind));
+
             if !ro.res.status.is_ok() {
                 co.count("runs_that_reported_failure", 1);
             }
@@ -499,6 +527,21 @@ impl Check for C16 {
             "paths are compared after resolving symlinks at the time of the call".into(),
         ]
     }
+}
+
+/// lexical normalisation of an absolute path (`.` and `..` removed)
+fn lexical(p: &std::path::Path) -> std::path::PathBuf {
+    let mut out = std::path::PathBuf::from("/");
+    for c in p.components() {
+        match c {
+            std::path::Component::ParentDir => {
+                out.pop();
+            }
+            std::path::Component::Normal(x) => out.push(x),
+            _ => {}
+        }
+    }
+    out
 }
 
 /// resolve symlinks in the parent directory (the entry itself may be gone)
